@@ -138,6 +138,11 @@ SIG = {
                        [('hashlib_sha256', 'Bytes → Bytes'), ('msg', 'Bytes'), ('pubkey', 'Bytes'), ('sig', 'Bytes')], 'Bool'),
     'schnorr_sign': ('schnorr.py', 'schnorr_sign',
                      [('hashlib_sha256', 'Bytes → Bytes'), ('msg', 'Bytes'), ('seckey', 'Bytes'), ('aux_rand', 'Bytes')], 'Bytes'),
+    'schnorr_full_pubkey_gen': ('schnorr.py', 'full_pubkey_gen', [('seckey', 'Bytes')], 'Bytes'),
+    # utils.py: the taproot key tweaks (curve arithmetic imported from schnorr.py; 64-digit hex formatting)
+    'negate_privkey': ('utils.py', 'negate_privkey', [('key', 'Bytes')], 'Bytes'),
+    'tweak_taproot_pubkey': ('utils.py', 'tweak_taproot_pubkey', [('internal_pubkey', 'Bytes'), ('tweak', 'Int')], 'Bytes × Bool'),
+    'tweak_taproot_privkey': ('utils.py', 'tweak_taproot_privkey', [('privkey', 'Bytes'), ('tweak', 'Int')], 'Bytes'),
 }
 # callees of schnorr.py that take the SHA-256 parameter first / return bytes / return bool
 SCH_CALLS = {'tagged_hash': ('schnorr_tagged_hash', True), 'bytes_from_int': ('schnorr_bytes_from_int', False),
@@ -164,6 +169,10 @@ STR_DEFAULT = {'Int': '(0 : Int)', 'List Char': '([] : List Char)', 'List Int': 
 STR_CALLS = {'bech32_create_checksum': ('bech32_create_checksum', False), 'bech32_verify_checksum': ('bech32_verify_checksum', True),
              'convertbits': ('convertbits', True), 'bech32_decode': ('bech32_decode', False), 'bech32_encode': ('bech32_encode', False),
              'decode': ('segwit_decode', False)}
+# utils.py's tweak functions: which locals are curve points; hex strings (of an even number of digits) are modelled as the bytes they denote
+TWEAKFUNS = {'negate_privkey': set(), 'tweak_taproot_pubkey': {'P', 'Q'}, 'tweak_taproot_privkey': set()}
+TWEAK_CALLS = {'point_add': 'schnorr_point_add', 'point_mul': 'schnorr_point_mul', 'full_pubkey_gen': 'schnorr_full_pubkey_gen',
+               'negate_privkey': 'negate_privkey'}
 # parsers: `x.hex()` of bytes is the same data (hex strings are modelled as the bytes they denote), struct.unpack_from
 PARSERS = {'txoutput_from_raw', 'txinput_from_raw', 'transaction_from_raw'}
 # struct format characters: size in bytes (little-endian / no alignment only), unsigned
@@ -334,7 +343,7 @@ class Tr:
     def __init__(s, name, file=None):
         s.name = name; s.tmp = 0; s.pre = []; s.declared = set(); s.points = set(); s.tuple5 = set()
         s.toklists = set(); s.tokvars = set(); s.optables = set(); s.byteslists = set(); s.reclists = {}; s.recvars = {}; s.revtables = set()
-        s.hoisted = set(); s.selfcopies = set(); s.scriptlists = set(); s.fmtvars = {}; s.fmtpre = {}; s.hoisting = False; s.ratvars = set(); s.optvars = set(); s.charvars = set()
+        s.hoisted = set(); s.selfcopies = set(); s.scriptlists = set(); s.fmtvars = {}; s.fmtpre = {}; s.hoisting = False; s.ratvars = set(); s.optvars = set(); s.charvars = set(); s.hexvars = set(); s.tweak_point_ctx = False
         s.fconsts = FILE_CONSTS.get(file, {})
 
     def fail(s, n, why):
@@ -457,7 +466,61 @@ class Tr:
                     return f'({s.e(l)} {sym} (' + ', '.join('none' for _ in r.elts) + '))'
         return None
 
+    def hexfmt(s, n):
+        """f"{a:064x}{b:064x}..." -> the list of formatted values, or None"""
+        if not isinstance(n, ast.JoinedStr) or not n.values: return None
+        out = []
+        for v in n.values:
+            if not (isinstance(v, ast.FormattedValue) and v.conversion == -1 and isinstance(v.format_spec, ast.JoinedStr)
+                    and len(v.format_spec.values) == 1 and isinstance(v.format_spec.values[0], ast.Constant)
+                    and v.format_spec.values[0].value == '064x'):
+                return None
+            out.append(v.value)
+        return out
+
+    def hexbytes(s, n):
+        """a hex string whose data is known as bytes: <bytes>.hex(), a hex variable, such a variable sliced at an even offset"""
+        if isinstance(n, ast.Name) and n.id in s.hexvars: return n.id
+        if (isinstance(n, ast.Call) and isinstance(n.func, ast.Attribute) and n.func.attr == 'hex' and not n.args and not n.keywords
+                and s.isbytes(n.func.value)):
+            return s.e(n.func.value)
+        if (isinstance(n, ast.Subscript) and isinstance(n.slice, ast.Slice) and n.slice.step is None and n.slice.upper is None
+                and isinstance(n.slice.lower, ast.Constant) and isinstance(n.slice.lower.value, int) and n.slice.lower.value >= 0
+                and n.slice.lower.value % 2 == 0 and s.hexbytes(n.value) is not None):
+            return f'(Py.slice {s.hexbytes(n.value)} ({n.slice.lower.value // 2} : Int) Py.slEnd)'
+        if isinstance(n, ast.Call) and isinstance(n.func, ast.Name) and n.func.id == 'negate_privkey' and len(n.args) == 1:
+            return s.eff(f'negate_privkey {s.e(n.args[0])}')
+        return None
+
+    def e_tweak(s, n):
+        if isinstance(n, ast.Attribute) and isinstance(n.value, ast.Name) and n.value.id == 'Secp256k1Params' and n.attr in ('_order', '_field'):
+            return CONSTS['Secp256k1Params.' + n.attr]
+        if isinstance(n, ast.Name) and n.id == 'G' and n.id not in s.declared: return FILE_CONSTS['schnorr.py']['G']
+        if isinstance(n, ast.Call) and isinstance(n.func, ast.Name):
+            f = n.func.id; a = n.args
+            if f == 'h_to_i' and len(a) == 1 and s.hexbytes(a[0]) is not None: return s.eff(f'Py.hToI {s.hexbytes(a[0])}')
+            if (f == 'int' and len(a) == 2 and isinstance(a[1], ast.Constant) and a[1].value == 16 and s.hexbytes(a[0]) is not None):
+                return s.eff(f'Py.hToI {s.hexbytes(a[0])}')
+            if f in TWEAK_CALLS and f != 'negate_privkey':
+                return s.eff(f'{TWEAK_CALLS[f]} ' + ' '.join(s.e(x) for x in a))
+        if (isinstance(n, ast.Call) and isinstance(n.func, ast.Attribute) and n.func.attr == 'fromhex' and isinstance(n.func.value, ast.Name)
+                and n.func.value.id == 'bytes' and len(n.args) == 1 and s.hexfmt(n.args[0]) is not None):
+            return s.eff('Py.fromhexFmt64 [' + ', '.join(s.e(v) for v in s.hexfmt(n.args[0])) + ']')
+        if s.hexfmt(n) is not None:
+            return s.eff('Py.hexStrFmt64 [' + ', '.join(s.e(v) for v in s.hexfmt(n)) + ']')
+        hb = s.hexbytes(n)
+        if hb is not None and not isinstance(n, ast.Name): return hb
+        if (isinstance(n, ast.Subscript) and isinstance(n.value, ast.Name) and n.value.id in s.points and isinstance(n.slice, ast.Constant)
+                and n.slice.value in (0, 1)):
+            return s.eff(f'Py.ptIdx {n.value.id} {n.slice.value}')
+        if isinstance(n, ast.Tuple) and len(n.elts) == 2 and s.tweak_point_ctx:
+            return f'(some ({s.e(n.elts[0])}, {s.e(n.elts[1])}) : {POINT})'
+        return None
+
     def e(s, n):
+        if s.name in TWEAKFUNS:
+            r = s.e_tweak(n)
+            if r is not None: return r
         if s.name in STRFUNS:
             r = s.e_str(n)
             if r is not None: return r
@@ -787,6 +850,7 @@ class Tr:
             f = n.func
             nm = f.attr if isinstance(f, ast.Attribute) else getattr(f, 'id', '')
             if nm == 'hex' and s.name in PARSERS and isinstance(f, ast.Attribute): return s.isbytes(f.value)
+            if nm == 'full_pubkey_gen' and s.name in TWEAKFUNS: return True
             return nm in ('to_bytes', 'pack', 'bytes', 'encode_varint', 'h_to_b', 'b_to_h', '_op_push_data',
                           'prepend_compact_size', 'digest', 'encode', 'ripemd160') or nm in LIST_RET or nm in SCH_BYTES
         if isinstance(n, ast.Subscript) and s.is_unpack_from(n.value) and isinstance(n.slice, ast.Constant):
@@ -975,6 +1039,21 @@ class Tr:
         r = [ind + p for p in s.pre]; s.pre = []; return r
 
     def stmt(s, st, ind):
+        if (s.name in TWEAKFUNS and isinstance(st, ast.Assign) and len(st.targets) == 1 and isinstance(st.targets[0], ast.Name)):
+            nm = st.targets[0].id
+            if nm in TWEAKFUNS[s.name]:
+                s.tweak_point_ctx = True
+                try: v = s.e(st.value)
+                finally: s.tweak_point_ctx = False
+                kw_ = '' if nm in s.declared else 'let mut '
+                s.declared.add(nm); s.points.add(nm)
+                return s.flush(ind) + [f'{ind}{kw_}{nm} := {v}']
+            hb = s.hexbytes(st.value) if not isinstance(st.value, ast.Name) else None
+            if hb is None and s.hexfmt(st.value) is not None: hb = s.e(st.value)
+            if hb is not None:
+                kw_ = '' if nm in s.declared else 'let mut '
+                s.declared.add(nm); s.hexvars.add(nm); s.bytesvars.add(nm)
+                return s.flush(ind) + [f'{ind}{kw_}{nm} := {hb}']
         if s.name in STRFUNS:
             if isinstance(st, ast.Return) and isinstance(st.value, ast.Tuple) and '×' in s.ret:
                 comps = [c.strip() for c in s.ret.split('×')]
@@ -1244,6 +1323,13 @@ class Tr:
                 if nm not in top and nm not in s.declared and rl is not None:
                     out.append(f'  let mut {nm} : {REC_TYPE[s.reclists[rl][0]]} := default')
                     s.declared.add(nm); s.recvars[nm] = s.reclists[rl]; s.hoisted.add(nm)
+                    continue
+                if (nm not in top and nm not in s.declared and s.name in TWEAKFUNS
+                        and (s.hexfmt(st.value) is not None or (isinstance(st.value, ast.Call) and (
+                            (isinstance(st.value.func, ast.Attribute) and st.value.func.attr == 'hex')
+                            or getattr(st.value.func, 'id', '') == 'negate_privkey')))):
+                    out.append(f'  let mut {nm} := ([] : Bytes)')
+                    s.declared.add(nm); s.hexvars.add(nm); s.bytesvars.add(nm)
                     continue
                 if nm not in top and nm not in s.declared and nm in LOCAL_LISTS.get(s.name, {}):
                     T_ = LOCAL_LISTS[s.name][nm]
@@ -1533,6 +1619,12 @@ def main():
         CONSTS['LEAF_VERSION_TAPSCRIPT'] = f'({consts.LEAF_VERSION_TAPSCRIPT} : Int)'
         for k in ('SIGHASH_ALL', 'SIGHASH_NONE', 'SIGHASH_SINGLE', 'SIGHASH_ANYONECANPAY', 'TAPROOT_SIGHASH_ALL'):
             CONSTS[k] = f'({getattr(consts, k)} : Int)'
+        ut = mods['utils']
+        if not (ut.G == mods['schnorr'].G and ut.point_add is mods['schnorr'].point_add and ut.point_mul is mods['schnorr'].point_mul
+                and ut.full_pubkey_gen is mods['schnorr'].full_pubkey_gen):
+            raise Unsupported('utils.py no longer takes G / point_add / point_mul / full_pubkey_gen from schnorr.py')
+        CONSTS['Secp256k1Params._order'] = f'({ut.Secp256k1Params._order} : Int)'
+        CONSTS['Secp256k1Params._field'] = f'({ut.Secp256k1Params._field} : Int)'
         CONSTS['NEGATIVE_SATOSHI'] = f'({consts.NEGATIVE_SATOSHI} : Int)'
         for k in ('ABSOLUTE_TIMELOCK_SEQUENCE', 'REPLACE_BY_FEE_SEQUENCE', 'EMPTY_TX_SEQUENCE'):
             CONSTS[k] = blit(getattr(consts, k))
